@@ -426,7 +426,14 @@ impl<L: Localize> TimeDomainIterator<L> {
 
         while self.curr_schedule.peek().map(|tr| tr.kind) == Some(curr_kind) {
             if let Some(max_interval_size) = self.opening_hours.ctx.approx_bound_interval_size {
-                if self.curr_date - start_date > max_interval_size + chrono::TimeDelta::days(1) {
+                // A negative bound acts as an empty one (at least one range has to be
+                // consumed) and the slack must not overflow for huge bounds.
+                let max_with_slack = max_interval_size
+                    .max(chrono::TimeDelta::zero())
+                    .checked_add(&chrono::TimeDelta::days(1))
+                    .unwrap_or(chrono::TimeDelta::MAX);
+
+                if self.curr_date - start_date > max_with_slack {
                     return;
                 }
             }
